@@ -189,7 +189,7 @@ class _BioBasketStr():
                 for seq in self.__parent
             ]
             if name in (
-                'center', 'remove_prefix', 'ljust', 'lower',
+                'center', 'removeprefix', 'removesuffix', 'ljust', 'lower',
                 'lstrip', 'replace', 'rjust', 'rstrip',
                 'strip', 'swapcase', 'translate', 'upper'
                 ):
